@@ -68,6 +68,15 @@ func judgeInvalidation(r *Run, j *Judged, cl []*cls) {
 		if cu.reply == nil && !cu.synth {
 			continue
 		}
+		deleteFailed := false
+		for _, s := range u.Store {
+			if s.Kind == "delete" && s.Fault != "" {
+				deleteFailed = true // what the store refuses to delete cannot be invalidated
+			}
+		}
+		if deleteFailed {
+			continue
+		}
 		targets := map[int]bool{u.Op.Res % len(r.Scn.Resources): true}
 		same, _ := r.namedResources(u)
 		for _, t := range same {
@@ -431,6 +440,11 @@ func judgeExpectedHits(r *Run, j *Judged, cl []*cls, by map[int]*OResp) {
 				}
 			}
 			j.fail(prop, rule, x, sig, "expected a hit: latest origin response sid=%d for resource %d class %q is stored and fresh (age<=%s < lifetime>=%s, cc=%q) and nothing invalidated it, but the exchange made %d origin call(s) (status=%d, cache-status=%v)", L.SID, res, K, ns(aHi), ns(lLo), hdr.Get("Cache-Control"), len(cx.fg), x.Status, cx.status)
+			if prop == "C08" && rule == "freshen-lost" {
+				// a response freshened by a 304 is a stored, fresh response like any other: C09's statement covers it too
+				j.count("C09", "expected-hit-missed")
+				j.fail("C09", "expected-hit-missed", x, lifeSrcOf(hdr, body.Status)+"+freshened", "expected a hit: stored response sid=%d, freshened by the 304 sid=%d, is fresh (age<=%s < lifetime>=%s, cc=%q) and nothing invalidated it, but the exchange made %d origin call(s) (status=%d, cache-status=%v)", body.SID, L.SID, ns(aHi), ns(lLo), hdr.Get("Cache-Control"), len(cx.fg), x.Status, cx.status)
+			}
 			continue
 		}
 		if L.Is304 {
